@@ -243,25 +243,46 @@ def failing_decls(build_out):
 # stage 2+3: correspondence and oracle
 # ----------------------------------------------------------------------------
 
+def _install_text(dst, text):
+    """atomic, and a no-op when unchanged: checks of different properties may run concurrently"""
+    try:
+        if open(dst).read() == text:
+            return
+    except OSError:
+        pass
+    tmp = "%s.%d.tmp" % (dst, os.getpid())
+    with open(tmp, "w") as f:
+        f.write(text)
+    os.replace(tmp, dst)
+
+
+def _install_file(src, dst):
+    _install_text(dst, open(src).read())
+
+
 def build_harness(pid, reg):
     os.makedirs(BUILD, exist_ok=True)
     cmd = ["go", "build", "-tags", "verif," + reg["go_tag"]]
     if os.path.realpath(REPO) == "/repo":
-        shutil.copyfile(os.path.join(REPO, "go.sum"), os.path.join(HARNESS, "go.sum"))
+        _install_file(os.path.join(REPO, "go.sum"), os.path.join(HARNESS, "go.sum"))
         out = os.path.join(BUILD, "harness_" + pid)
     else:
         # scratch worktree (VERIF_REPO=/tmp/wt-x): alternate go.mod with another replace target
         tag = hashlib.sha1(os.path.realpath(REPO).encode()).hexdigest()[:8]
         alt = os.path.join(BUILD, "alt_%s.mod" % tag)
         mod = open(os.path.join(HARNESS, "go.mod")).read().replace("=> /repo", "=> " + os.path.realpath(REPO))
-        open(alt, "w").write(mod)
-        shutil.copyfile(os.path.join(REPO, "go.sum"), alt[:-4] + ".sum")
+        _install_text(alt, mod)
+        _install_file(os.path.join(REPO, "go.sum"), alt[:-4] + ".sum")
         cmd += ["-modfile", alt]
         out = os.path.join(BUILD, "harness_%s_%s" % (pid, tag))
-    if os.path.exists(out):
-        os.remove(out)
-    rc, o, dt = run(cmd + ["-o", out, "."], cwd=HARNESS, env=GOENV, timeout=3000)
-    return (out if rc == 0 else None), o, dt
+    tmpout = "%s.%d.tmp" % (out, os.getpid())
+    rc, o, dt = run(cmd + ["-o", tmpout, "."], cwd=HARNESS, env=GOENV, timeout=3000)
+    if rc != 0:
+        if os.path.exists(tmpout):
+            os.remove(tmpout)
+        return None, o, dt
+    os.replace(tmpout, out)
+    return out, o, dt
 
 
 def driver_path(reg):
